@@ -64,12 +64,10 @@ def ts_value(s):
 
 
 def model_tree_spec(spec):
-    """the wire form for the Lean driver: a bool (an `int` to Python's isinstance) travels as a token carrying its `str()`
-    and `int()`; bool media numbers as the integers they are written as"""
+    """the wire form for the Lean driver: a bool build timestamp travels as {"$bool": b} (`Ts.bool`: refused by the repaired
+    `_assert_type`, written as True/False by the bare isinstance loop - F43); media numbers are ints or None in the typed model
+    (bool media numbers are C06's business and are not generated here)"""
     out = dict(spec)
-    ts = spec["tree"]["build_timestamp"]
-    if isinstance(ts, dict) and "$bool" in ts:
-        out["tree"] = dict(spec["tree"], build_timestamp={"$float": str(ts["$bool"]), "int": int(ts["$bool"])})
     m = spec["media"]
     out["media"] = dict((k, int(v) if isinstance(v, bool) else v) for k, v in m.items())
     return out
@@ -396,7 +394,7 @@ def bval(rng, normal, rate=0.15, exclude=""):
 
 TS_POOL = [1, 123456, -5, 2 ** 40, 2 ** 53, -(2 ** 53), 1417653911, 2 ** 31, 2 ** 32 + 1, 7, -1, 2 ** 32 + 7, 10 ** 7, 10 ** 8, 2 ** 31 - 1]
 FLOAT_TS_POOL = [1.5, 2.5, -0.5, 0.99, -2.75, 1417653911.25, 123456.0, 1e15 + 0.5, 4.0e18, 1e22, -1e22, 0.5, 5e-324]
-MEDIA_POOL = [(1, 3), (3, 3), (10, 12), (0, 5), (5, 0), (-1, 2), (1, 2 ** 63), (2 ** 31, 2 ** 32 + 7), (True, 3), (2, 1), (1, 1)]
+MEDIA_POOL = [(1, 3), (3, 3), (10, 12), (0, 5), (5, 0), (-1, 2), (1, 2 ** 63), (2 ** 31, 2 ** 32 + 7), (2, 1), (1, 1)]     # no bool here: Media._assert_type refuses it (F22/F43 repair), typed model holds ints; C06 probes it
 
 
 def gen_variant(rng, vid, uid, typ, arch, depth, maxdepth, used):
@@ -680,7 +678,7 @@ def gen_class(rng, cls, tier="quick", float_ts=False):
     elif cls == "platforms-without-arch":
         spec["tree"]["platforms"] = [p for p in spec["tree"]["platforms"] if p != spec["tree"]["arch"]]
         spec["images"] = [[p, i] for p, i in spec["images"] if p != spec["tree"]["arch"]]
-    elif cls == "bool-timestamp!":                    # F35
+    elif cls == "bool-timestamp!":                    # F43 (builder id F35): refused on dump since the repair
         spec["tree"]["build_timestamp"] = {"$bool": True}
     elif cls == "no-variants!":                       # F12: refused (IndexError), real and model must agree on the refusal
         spec["variants"] = []
